@@ -381,8 +381,24 @@ Record iov_case := mkIov {
   vc_etas : list (id * list (Q * id));  (* requested eta, [(occasion level, new IOV eta)] *)
   vc_syms : list id;
   vc_envs : list (list (id * Q));
-  vc_items : list (id * id)             (* IOV_n, ETAI_n of each requested eta (same order as vc_etas) *)
+  vc_items : list (id * id);            (* IOV_n, ETAI_n of each requested eta (same order as vc_etas) *)
+  vc_groups : list (list nat);          (* positions of the requested etas per declared distribution group; [] = not compared *)
+  vc_enames : list (nat * nat * id);    (* eta_name(i, k) *)
+  vc_onames : list (nat * nat * id);    (* omega_iov_name(i, j), i <= j *)
+  vc_dists : list (list id * list (list id))   (* the new distributions of the implementation: names, covariance symbols *)
 }.
+
+Definition tbl2 (t : list (nat * nat * id)) (i k : nat) : id :=
+  match find (fun e : nat * nat * id => Nat.eqb (fst (fst e)) i && Nat.eqb (snd (fst e)) k) t with
+  | Some e => snd e | None => 1%positive end.
+Definition dist_eqb (a : rvdist) (b : list id * list (list id)) : bool :=
+  list_eqb Pos.eqb (rd_names a) (fst b) && list_eqb (list_eqb Pos.eqb) (rd_sigma a) (snd b).
+Fixpoint dists_eqb (a : list rvdist) (b : list (list id * list (list id))) : bool :=
+  match a, b with
+  | [], [] => true
+  | x :: a', y :: b' => dist_eqb x y && dists_eqb a' b'
+  | _, _ => false
+  end.
 
 Definition iov_items (c : iov_case) : list iov_item :=
   map (fun p : (id * list (Q * id)) * (id * id) =>
@@ -421,6 +437,12 @@ Definition check_iov (c : iov_case) : list nat :=
       (vc_syms c) in
   tag3 (if existsb (Nat.eqb 1) per then 1 else if existsb (Nat.eqb 2) per then 2 else 0) 37 ++
   tag (declarations_fresh (vc_before c) (vc_after c)) 38 ++
+  (* 47: the declared distributions (names, levels, same covariance symbols on every occasion) *)
+  match vc_groups c with
+  | [] => []
+  | g => let K := match vc_etas c with (_, lv) :: _ => length lv | [] => 0 end in
+         tag (dists_eqb (iov_dists (tbl2 (vc_enames c)) (tbl2 (vc_onames c)) g K) (vc_dists c)) 47
+  end ++
   (* 8 / 9: hand models of add_iov and remove_iov, statement by statement *)
   tag3 (stmts_agree 2 (map env_of (vc_envs c)) (add_iov (vc_occ c) (iov_items c) (vc_before c)) (vc_after c)) 8 ++
   match vc_removed c with
@@ -454,13 +476,26 @@ Fixpoint stmts_agree_fi (fi : finterp) (need : nat) (envs : list env) (a b : lis
   end.
 Record blq_case := mkBlq {
   bq_args : blq_args; bq_before : list stmt; bq_after : list stmt;
-  bq_envs : list (list (id * Q))
+  bq_envs : list (list (id * Q));
+  bq_eps_sigma : list (id * id)         (* epsilon, its variance parameter *)
 }.
 Definition check_blq (c : blq_case) : list nat :=
   match transform_blq (bq_args c) (bq_before c) with
   | Some m => tag3 (stmts_agree_fi blq_fi 2 (map env_of (bq_envs c)) m (bq_after c)) 10
   | None => [10]
-  end.
+  end ++
+  (* 54: SD is the standard deviation of the residual part of Y: SD^2 = sum_j (dY/d eps_j)^2 * sigma_j, the
+     coefficients measured on the ORIGINAL model (Y affine in each epsilon) *)
+  let y := b_y (bq_args c) in
+  tag3 (summarize 2 (map (fun m =>
+      let zero := fold_left (fun acc p => set_env acc (fst p) 0%Q) (bq_eps_sigma c) m in
+      let y0 := value_at (bq_before c) zero y in
+      let var := fold_left (fun acc p =>
+                   match acc, osub (value_at (bq_before c) (set_env zero (fst p) 1%Q) y) y0, env_of m (snd p) with
+                   | Some a, Some cj, Some sg => Some (Qred (a + cj * cj * sg))
+                   | _, _, _ => None end) (bq_eps_sigma c) (Some 0%Q) in
+      let sd := value_at (bq_after c) zero (b_sd (bq_args c)) in
+      cmp_oq (omul sd sd) var) (bq_envs c))) 54.
 
 (* ---------------------------------------------------------------------------------------------------- *)
 (* _update_numerators called on a model whose transit rates were perturbed: hand model vs implementation *)
